@@ -48,7 +48,7 @@ ASSUMPTIONS = ["exception handlers do not raise; at most one propagating failure
 
 
 def plan(tier: str) -> dict[str, Any]:
-    n = 2500 if tier == "quick" else 120000
+    n = 5000 if tier == "quick" else 400000
     return {"cases": n, "budget_s": 90 if tier == "quick" else 1500, "min_per_shard": 50}
 
 
